@@ -12,6 +12,7 @@ inductive Cid where
   | none                                   -- no commit (a branch that does not exist yet)
   | orig (n : Nat)                         -- a commit that existed before
   | txc (staged : Nat) (parent : Cid)      -- staged commit re-parented by the transaction
+  | adv (n : Nat) (parent : Cid)           -- an ordinary commit made on top of `parent` by another operation
   deriving Repr, DecidableEq
 
 structure TxLog where
@@ -99,7 +100,37 @@ def txDiscardFault (guardFirst : Bool) (order : List String) (k : Nat) (s : TxSt
   else if k == dels.length then ({ s with staged := [] }, .failed)
   else ({ s with staged := [], exists_ := false }, .ok)
 
+/-- Another operation of the repository (`wrgl commit`, merge, pull, reapply …) moves branch `b`
+    while the transaction is open, interrupted or over: an ordinary commit `n` on top of the
+    branch's head (which creates the branch when it does not exist). Its reflog entry carries no
+    transaction id, so the transaction's own log (`logs`), its staged refs and its status are
+    untouched. -/
+def txAdvance (b : String) (n : Nat) (s : TxSt) : TxSt :=
+  { s with heads := setHead s.heads b (Cid.adv n (s.head b)) }
+
+/-- a history of such commits, oldest first -/
+def txAdvances (advs : List (String × Nat)) (s : TxSt) : TxSt :=
+  advs.foldl (fun s p => txAdvance p.1 p.2 s) s
+
 /-! ### specification -/
+
+/-- number of commits made by the transaction in the history of a commit (first parents) -/
+def txCommitsIn : Cid → Nat
+  | .none => 0
+  | .orig _ => 0
+  | .txc _ p => txCommitsIn p + 1
+  | .adv _ p => txCommitsIn p
+
+/-- ordinary commits `ns` (oldest first) stacked on `c` -/
+def applyAdvs (c : Cid) (ns : List Nat) : Cid := ns.foldl (fun c n => Cid.adv n c) c
+
+/-- Where a staged branch may be once the transaction has moved it, when other operations have put
+    the ordinary commits `ns` (oldest first) on the branch since the transaction was staged: the
+    staged commit `st` re-parented on the head of that moment — exactly once, after any number `j`
+    of those commits — with the later ones on top. Without such commits this is the single
+    position `txc st c0` of `allBranchesHeads`. -/
+def movedOnceHeads (c0 : Cid) (st : Nat) (ns : List Nat) : List Cid :=
+  (List.range (ns.length + 1)).map (fun j => applyAdvs (Cid.txc st (applyAdvs c0 (ns.take j))) (ns.drop j))
 
 /-- the all-branches outcome: every staged branch moved to the staged commit re-parented on the
     branch's previous head, exactly once -/
